@@ -133,13 +133,14 @@ Qed.
 
 (* ------------------------------------------------------------------ the invariant *)
 Record Inv (tbl : table) (s : rt) : Prop := mkInv {
-  I_off    : qlib s = false -> regs s = [] /\ threads s = 0 /\ proxies s = 0;
+  I_off    : qlib s = false -> regs s = [] /\ threads s = 0 /\ (io_wellformed tbl = true -> proxies s = 0);
   I_nodup  : NoDup (regs s);
   I_valid  : forall i, In i (regs s) ->
              exists r, nth_error tbl i = Some r /\ r_registers r = true /\ (r_lazy r = true -> In i (created s));
   I_ledger : forall i, In i (ledger s) ->
              (i = core_id tbl /\ qlib s = true) \/ In i (regs s) \/ row_at tbl i (fun r => r_registers r = false);
-  I_init   : qlib s = true -> forall i r, nth_error tbl i = Some r -> r_lazy r = false -> r_registers r = true -> In i (regs s)
+  I_init   : qlib s = true -> forall i r, nth_error tbl i = Some r -> r_lazy r = false -> r_registers r = true -> In i (regs s);
+  I_io     : io_wellformed tbl = true -> proxies s <> 0 -> exists i r, In i (regs s) /\ nth_error tbl i = Some r /\ r_io r = true
 }.
 
 Lemma inv_fresh : forall tbl, Inv tbl fresh.
@@ -198,8 +199,8 @@ Proof.
   destruct (I_off _ _ I Q) as (Hr & Ht & Hp).
   cbv zeta.
   match goal with |- Inv tbl (fold_left _ _ ?x) => set (s0 := x) end.
-  assert (Hs0 : qlib s0 = true /\ regs s0 = [] /\ ledger s0 = core_id tbl :: ledger s /\ created s0 = created s) by (unfold s0; simpl; auto).
-  destruct Hs0 as (Q0 & R0 & L0 & C0).
+  assert (Hs0 : qlib s0 = true /\ regs s0 = [] /\ ledger s0 = core_id tbl :: ledger s /\ created s0 = created s /\ proxies s0 = proxies s) by (unfold s0; simpl; auto).
+  destruct Hs0 as (Q0 & R0 & L0 & C0 & P0).
   assert (Hnd : NoDup (init_ids tbl)) by (unfold init_ids; apply NoDup_filter, seq_NoDup).
   destruct (fold_bring_up tbl (init_ids tbl) s0 Hnd) as (a & b & c & d & e & f & g & h & N & Rg & L1 & L2).
   - intros i _ H. rewrite R0 in H. exact H.
@@ -218,6 +219,7 @@ Proof.
         -- right; left. apply Rg. right. split; [apply in_init_ids; eauto|exists r; auto].
         -- right; right. exists r. auto.
     + intros _ i r E Lz R. apply Rg. right. split; [apply in_init_ids; eauto|exists r; auto].
+    + intros W Hnz. rewrite c, P0 in Hnz. exfalso. apply Hnz. apply Hp. exact W.
 Qed.
 
 Lemma inv_use : forall tbl i s, Inv tbl s -> Inv tbl (use tbl i s).
@@ -226,8 +228,13 @@ Proof.
   destruct (nth_error tbl i) as [r|] eqn:E; [|exact I].
   destruct (mem i (dirty s)) eqn:D.
   { destruct I. constructor; simpl; auto. }
-  assert (Hproxy : forall s1, Inv tbl s1 -> qlib s1 = true -> Inv tbl (if r_io r then add_proxy s1 else s1)).
-  { intros s1 I1 Q1. destruct (r_io r); [|exact I1]. destruct I1. constructor; simpl; auto. intros C; congruence. }
+  assert (Hproxy : forall s1, Inv tbl s1 -> qlib s1 = true -> (forall j, In j (regs s) -> In j (regs s1)) ->
+                              Inv tbl (if r_io r then add_proxy s1 else s1)).
+  { intros s1 I1 Q1 Sub. destruct (r_io r) eqn:Io; [|exact I1]. destruct I1. constructor; simpl; auto.
+    - intros C; congruence.
+    - intros W _. exists i, r. split; [|auto]. apply Sub.
+      unfold io_wellformed in W. rewrite forallb_forall in W. specialize (W r (nth_error_In _ _ E)). rewrite Io in W. simpl in W.
+      apply andb_prop in W. destruct W as [W1 W2]. apply negb_true_iff in W1. apply (I_init _ _ I Q i r); auto. }
   destruct (r_lazy r) eqn:Lz; [|apply Hproxy; auto].
   destruct (mem i (created s)) eqn:C; [apply Hproxy; auto|].
   apply mem_false in C.
@@ -235,13 +242,13 @@ Proof.
   simpl in a, b, c, d, e, f, g, h.
   assert (Hni : ~ In i (regs s)).
   { intros H. destruct (I_valid _ _ I i H) as (r' & E' & _ & K). assert (r' = r) by congruence. subst. auto. }
-  apply Hproxy; [|rewrite a; exact Q].
   assert (Hregs : forall j, In j (regs (bring_up tbl (mark_created i s) i)) <-> In j (regs s) \/ (j = i /\ r_registers r = true)).
   { intros j. change (regs (mark_created i s)) with (regs s) in R. destruct R as [((r' & E' & R') & P)|(Hr & Eq)].
     - assert (r' = r) by congruence. subst. split.
       + intros H. apply (Permutation_in _ P) in H. destruct H as [<-|H]; auto.
       + intros [H|[-> _]]; apply (Permutation_in _ (Permutation_sym P)); simpl; auto.
     - rewrite Eq. split; [auto|]. intros [H|[_ H]]; [exact H|]. exfalso. apply Hr. exists r. auto. }
+  apply Hproxy; [|rewrite a; exact Q|intros j H; apply Hregs; auto].
   constructor.
   - rewrite a. congruence.
   - change (regs (mark_created i s)) with (regs s) in R. destruct R as [(_ & P)|(_ & Eq)].
@@ -256,6 +263,8 @@ Proof.
       * right; right. exists r. auto.
     + destruct (I_ledger _ _ I j H) as [K|[K|K]]; auto. right; left. apply Hregs. auto.
   - intros _ j r' E' Lz' R'. apply Hregs. left. apply (I_init _ _ I Q j r'); auto.
+  - intros W Hnz. rewrite c in Hnz. simpl in Hnz. destruct (I_io _ _ I W Hnz) as (k & rk & Hk & Ek & Iok).
+    exists k, rk. split; [apply Hregs; auto|auto].
 Qed.
 
 Lemma regs_valid : forall tbl s, Inv tbl s -> Forall (valid tbl) (early s) /\ Forall (valid tbl) (normal s) /\ Forall (valid tbl) (late s).
@@ -303,4 +312,160 @@ Proof.
     unfold s4. apply (fold_cleanup_ledger _ _ _ _ Vl). split; [|intro; apply Hr; apply in_or_app; right; apply in_or_app; auto].
     unfold s3. apply (fold_cleanup_ledger _ _ _ _ Vn). split; [|intro; apply Hr; apply in_or_app; right; apply in_or_app; auto].
     simpl. unfold s1. apply (fold_cleanup_ledger _ _ _ _ Ve). split; [exact HH|intro; apply Hr; apply in_or_app; auto].
+Qed.
+
+Lemma finalize_proxies : forall tbl s, Inv tbl s -> qlib s = true -> io_wellformed tbl = true -> proxies (finalize tbl true s) = 0.
+Proof.
+  intros tbl s I Q W. unfold finalize. replace (negb (qlib s) || negb true) with false by (rewrite Q; reflexivity).
+  cbv zeta. simpl.
+  set (s0 := mkRt (qlib s) (early s) (normal s) (late s) (ledger s) (threads s) (proxies s) (created s) (dirty s) (atexits s) (fault s) []).
+  set (s1 := fold_left (cleanup tbl) (early s) s0).
+  set (s3 := fold_left (cleanup tbl) (normal s) (join_workers s1)).
+  assert (Z : forall l x, proxies x = 0 -> proxies (fold_left (cleanup tbl) l x) = 0).
+  { intros l x Hx. destruct (fold_cleanup_proxies tbl l x) as [H|H]; congruence. }
+  destruct (Nat.eq_dec (proxies s) 0) as [P0|Pn].
+  - apply Z. apply Z. simpl. apply Z. exact P0.
+  - destruct (I_io _ _ I W Pn) as (i & r & Hin & E & Io). unfold regs in Hin.
+    apply in_app_or in Hin. destruct Hin as [Hin|Hin].
+    + apply Z. apply Z. simpl. unfold s1. eapply fold_cleanup_proxies_io; eauto.
+    + apply in_app_or in Hin. destruct Hin as [Hin|Hin].
+      * apply Z. unfold s3. eapply fold_cleanup_proxies_io; eauto.
+      * eapply fold_cleanup_proxies_io; eauto.
+Qed.
+
+Lemma inv_finalize : forall tbl ok s, Inv tbl s -> Inv tbl (finalize tbl ok s).
+Proof.
+  intros tbl ok s I. destruct (qlib s) eqn:Q; [|unfold finalize; rewrite Q; exact I].
+  destruct ok; [|unfold finalize; rewrite Q; exact I].
+  destruct (finalize_spec tbl s I Q) as (a & b & _ & _ & _ & t & _ & _ & _ & L). cbv zeta in *.
+  constructor.
+  - intros _. split; [exact b|]. split; [exact t|]. intros W. apply finalize_proxies; auto.
+  - rewrite b. constructor.
+  - rewrite b. intros i [].
+  - intros i H. apply L in H. destruct H as (H & Hr & Hc).
+    destruct (I_ledger _ _ I i H) as [[K _]|[K|K]]; [contradiction|contradiction|auto].
+  - rewrite a. discriminate.
+  - intros W Hnz. exfalso. apply Hnz. apply finalize_proxies; auto.
+Qed.
+
+Lemma inv_step : forall tbl ae s o, Inv tbl s -> Inv tbl (step tbl ae s o).
+Proof. intros tbl ae s [w|ok|i] I; simpl; [apply inv_initialize|apply inv_finalize|apply inv_use]; exact I. Qed.
+
+Lemma run_snoc : forall tbl ae ops o, run tbl ae (ops ++ [o]) = step tbl ae (run tbl ae ops) o.
+Proof. intros. unfold run. rewrite fold_left_app. reflexivity. Qed.
+
+Lemma inv_run : forall tbl ae ops, Inv tbl (run tbl ae ops).
+Proof.
+  intros tbl ae ops. induction ops as [|o l IH] using rev_ind; [apply inv_fresh|]. rewrite run_snoc. apply inv_step. exact IH.
+Qed.
+
+(* ------------------------------------------------------------------ workloads that only use well-behaved rows *)
+Definition ops_good (tbl : table) (ops : list op) : Prop := forall i, In (OUse i) ops -> good tbl i = true.
+Definition init_good (tbl : table) : bool := forallb (good tbl) (init_ids tbl).
+
+Record GInv (tbl : table) (s : rt) : Prop := mkGInv {
+  G_dirty   : dirty s = [];
+  G_created : forall j, In j (created s) -> good tbl j = true /\ (qlib s = true -> In j (regs s));
+  G_regs    : forall j, In j (regs s) -> good tbl j = true;
+  G_ledger  : forall j, In j (ledger s) -> (j = core_id tbl /\ qlib s = true) \/ In j (regs s);
+  G_off     : qlib s = false -> ledger s = [] /\ created s = []
+}.
+
+Lemma empty_list : forall (l : list nat), (forall j, ~ In j l) -> l = [].
+Proof. intros [|a l] H; [reflexivity|]. exfalso. apply (H a). left. reflexivity. Qed.
+
+Lemma good_registers : forall tbl i, good tbl i = true -> row_at tbl i (fun r => r_registers r = true).
+Proof.
+  intros tbl i G. unfold good in G. destruct (nth_error tbl i) as [r|] eqn:E; [|discriminate].
+  unfold good_row in G. apply andb_prop in G. exists r. tauto.
+Qed.
+
+Lemma ginv_step : forall tbl ae s o, init_good tbl = true -> Inv tbl s -> GInv tbl s ->
+    (forall i, o = OUse i -> good tbl i = true) -> GInv tbl (step tbl ae s o).
+Proof.
+  intros tbl ae s o IG I G Ho. destruct o as [w|ok|i]; simpl.
+  - (* initialize *)
+    unfold initialize. destruct (qlib s) eqn:Q; [exact G|].
+    destruct (G_off _ _ G Q) as [Le Ce]. destruct (I_off _ _ I Q) as (Hr & _ & _).
+    cbv zeta. match goal with |- GInv tbl (fold_left _ _ ?x) => set (s0 := x) end.
+    assert (Hnd : NoDup (init_ids tbl)) by (unfold init_ids; apply NoDup_filter, seq_NoDup).
+    destruct (fold_bring_up tbl (init_ids tbl) s0 Hnd) as (a & b & c & d & e & f & g & h & N & Rg & L1 & L2).
+    + intros k _ H. exact H.
+    + constructor.
+    + intros k H. apply in_init_ids. exact H.
+    + cbv zeta in *. unfold init_good in IG. rewrite forallb_forall in IG.
+      assert (Rg' : forall j, In j (regs (fold_left (bring_up tbl) (init_ids tbl) s0)) <-> In j (init_ids tbl)).
+      { intros j. rewrite Rg. simpl. split; [intros [[]|[H _]]; exact H|]. intros H. right. split; [exact H|]. apply good_registers. auto. }
+      constructor.
+      * rewrite e. simpl. apply (G_dirty _ _ G).
+      * rewrite d. simpl. rewrite Ce. intros j [].
+      * intros j H. apply IG. apply Rg'. exact H.
+      * intros j H. rewrite a. simpl. apply L1 in H. simpl in H. rewrite Le in H.
+        destruct H as [[<-|[]]|H]; [left; auto|right; apply Rg'; exact H].
+      * rewrite a. simpl. discriminate.
+  - (* finalize *)
+    destruct (qlib s) eqn:Q; [|unfold finalize; rewrite Q; exact G].
+    destruct ok; [|unfold finalize; rewrite Q; exact G].
+    destruct (finalize_spec tbl s I Q) as (a & b & _ & _ & _ & _ & _ & _ & _ & L). cbv zeta in *.
+    assert (Hl : ledger (finalize tbl true s) = []).
+    { apply empty_list. intros j H. apply L in H. destruct H as (H & Hr & Hc). destruct (G_ledger _ _ G j H) as [[K _]|K]; contradiction. }
+    (* created and dirty through the three folds *)
+    assert (HCD : dirty (finalize tbl true s) = [] /\ created (finalize tbl true s) = []).
+    { unfold finalize. replace (negb (qlib s) || negb true) with false by (rewrite Q; reflexivity). cbv zeta. simpl.
+      set (s0 := mkRt (qlib s) (early s) (normal s) (late s) (ledger s) (threads s) (proxies s) (created s) (dirty s) (atexits s) (fault s) []).
+      assert (Ge : Forall (fun i => good tbl i = true) (early s)) by (apply Forall_forall; intros k Hk; apply (G_regs _ _ G); unfold regs; apply in_or_app; auto).
+      assert (Gn : Forall (fun i => good tbl i = true) (normal s)) by (apply Forall_forall; intros k Hk; apply (G_regs _ _ G); unfold regs; apply in_or_app; right; apply in_or_app; auto).
+      assert (Gl : Forall (fun i => good tbl i = true) (late s)) by (apply Forall_forall; intros k Hk; apply (G_regs _ _ G); unfold regs; apply in_or_app; right; apply in_or_app; auto).
+      destruct (fold_cleanup_good tbl (early s) s0 Ge) as [D1 C1].
+      set (s1 := fold_left (cleanup tbl) (early s) s0) in *.
+      destruct (fold_cleanup_good tbl (normal s) (join_workers s1) Gn) as [D3 C3].
+      set (s3 := fold_left (cleanup tbl) (normal s) (join_workers s1)) in *.
+      destruct (fold_cleanup_good tbl (late s) s3 Gl) as [D4 C4].
+      split.
+      - rewrite D4, D3. simpl. rewrite D1. simpl. apply (G_dirty _ _ G).
+      - apply empty_list. intros j H. apply C4 in H. destruct H as [H H4]. apply C3 in H. destruct H as [H H3]. simpl in H.
+        apply C1 in H. destruct H as [H H1]. simpl in H. destruct (G_created _ _ G j H) as [_ K]. specialize (K Q).
+        unfold regs in K. apply in_app_or in K. destruct K as [K|K]; [auto|]. apply in_app_or in K. destruct K; auto. }
+    destruct HCD as [HD HC].
+    constructor.
+    + exact HD.
+    + rewrite HC. intros j [].
+    + rewrite b. intros j [].
+    + rewrite Hl. intros j [].
+    + intros _. auto.
+  - (* use *)
+    specialize (Ho i eq_refl). unfold use. destruct (qlib s) eqn:Q; simpl; [|exact G].
+    destruct (nth_error tbl i) as [r|] eqn:E; [|exact G].
+    rewrite (G_dirty _ _ G). simpl.
+    assert (Hproxy : forall s1, GInv tbl s1 -> GInv tbl (if r_io r then add_proxy s1 else s1)).
+    { intros s1 G1. destruct (r_io r); [|exact G1]. destruct G1. constructor; simpl; auto. }
+    apply Hproxy. destruct (r_lazy r) eqn:Lz; [|exact G].
+    destruct (mem i (created s)) eqn:C; [exact G|]. apply mem_false in C.
+    destruct (bring_up_spec tbl (mark_created i s) i) as (a & b & c & d & e & f & g & h & L1 & L2 & R).
+    simpl in a, b, c, d, e, f, g, h. change (regs (mark_created i s)) with (regs s) in R.
+    destruct (good_registers tbl i Ho) as (r' & E' & Rr). assert (r' = r) by congruence. subst r'.
+    destruct R as [(_ & P)|(Hn & _)]; [|exfalso; apply Hn; exists r; auto].
+    assert (Hregs : forall j, In j (regs (bring_up tbl (mark_created i s) i)) <-> j = i \/ In j (regs s)).
+    { intros j. split; intros H.
+      - apply (Permutation_in _ P) in H. destruct H as [<-|H]; auto.
+      - apply (Permutation_in _ (Permutation_sym P)). destruct H as [->|H]; simpl; auto. }
+    constructor.
+    + rewrite e. apply (G_dirty _ _ G).
+    + rewrite d, a. simpl. intros j [<-|H].
+      * split; [exact Ho|]. intros _. apply Hregs. auto.
+      * destruct (G_created _ _ G j H) as [K1 K2]. split; [exact K1|]. intros _. apply Hregs. right. apply K2. exact Q.
+    + intros j H. apply Hregs in H. destruct H as [->|H]; [exact Ho|apply (G_regs _ _ G); exact H].
+    + intros j H. rewrite a. simpl. apply L1 in H. simpl in H. destruct H as [->|H].
+      * right. apply Hregs. auto.
+      * destruct (G_ledger _ _ G j H) as [K|K]; [left; exact K|right; apply Hregs; auto].
+    + rewrite a. simpl. congruence.
+Qed.
+
+Lemma ginv_run : forall tbl ae ops, init_good tbl = true -> ops_good tbl ops -> GInv tbl (run tbl ae ops).
+Proof.
+  intros tbl ae ops IG. induction ops as [|o l IH] using rev_ind; intros Hg.
+  - constructor; simpl; auto; try (intros j []).
+  - rewrite run_snoc. apply ginv_step; [exact IG|apply inv_run| |].
+    + apply IH. intros i H. apply Hg. apply in_or_app. auto.
+    + intros i ->. apply Hg. apply in_or_app. right. left. reflexivity.
 Qed.
